@@ -186,6 +186,8 @@ func c17Values(c *mon.Ctx, r *mon.Rand) {
 				}
 				m := get("timer", s, "t"+id)
 				m.N++
+				m.Sum += float64(d) / float64(time.Second)
+				m.Last += math.Abs(float64(d) / float64(time.Second)) // sum of magnitudes (tolerance scale)
 				s.s.Timer("t" + id).Record(d)
 				ops = append(ops, fmt.Sprintf("%s%v.Timer(t%s).Record(%d)", s.prefix, s.tags, id, d))
 			case 3:
@@ -334,6 +336,19 @@ func c17Values(c *mon.Ctx, r *mon.Rand) {
 				}
 				if n != s.N {
 					bad(fmt.Sprintf("timer sample count %d, recorded %d", n, s.N))
+				}
+				if promKinds["timer-value"] {
+					// C10's stack mode: every delivery carries the recorded duration, so
+					// the exposed sum is the sum of the recorded values (in seconds)
+					var sum float64
+					if m.GetSummary() != nil {
+						sum = m.GetSummary().GetSampleSum()
+					} else if m.GetHistogram() != nil {
+						sum = m.GetHistogram().GetSampleSum()
+					}
+					if math.Abs(sum-s.Sum) > 1e-9*(1+s.Last) {
+						bad(fmt.Sprintf("timer sample sum %v s, the recorded durations add up to %v s", sum, s.Sum))
+					}
 				}
 			case "histogram":
 				h := m.GetHistogram()
@@ -578,6 +593,9 @@ func c17Conflicts(c *mon.Ctx, r *mon.Rand) {
 	run("first use of "+first, func() { use(first, tags1, rep, sc) })
 	n0 := len(errs)
 	run("second use of "+second, func() { use(second, tags2, rep, sc) })
+	// the caller that recovered from the callback's panic (or was handed a no-op)
+	// simply asks again, with the same name and tags, and records on what it gets
+	run("second use repeated, "+second, func() { use(second, tags2, rep, sc) })
 	// one more conflicting use after the callback has been through the first
 	// conflict (and possibly panicked, with the caller recovering): it must be
 	// handled like the first
@@ -586,6 +604,11 @@ func c17Conflicts(c *mon.Ctx, r *mon.Rand) {
 		tags3 = map[string]string{"yet-another": "w"}
 	}
 	run("third use, again of "+second, func() { use(second, tags3, rep, sc) })
+	// and the first kind once more, with the tag keys of the first use and a new
+	// value: one more series of the family the first use registered, whatever
+	// was refused in between
+	tags4 := map[string]string{"k": "again"}
+	run("fourth use, again of "+first, func() { use(first, tags4, rep, sc) })
 	if sc != nil {
 		run("report pass", func() { tally.VerifReportPass(sc) })
 	}
@@ -595,8 +618,24 @@ func c17Conflicts(c *mon.Ctx, r *mon.Rand) {
 		c.Class("second-use-accepted", 1)
 	}
 	run("gather", func() {
-		if _, err := reg.Gather(); err != nil {
+		fams, err := reg.Gather()
+		if err != nil {
 			c.Violation("gather-error", map[string]interface{}{"err": err.Error(), "case": desc})
+			return
+		}
+		if n0 == 0 && !strings.HasPrefix(first, "register-") {
+			found := false
+			for _, f := range fams {
+				for _, m := range f.GetMetric() {
+					if f.GetName() == "x" && labelsOf(m)["k"] == "again" {
+						found = true
+					}
+				}
+			}
+			if !found {
+				c.Violation("series-lost-after-refused-registration", map[string]interface{}{"why": "the first use of the name was accepted; a later use of the same kind with the same tag keys (k=again), made after other uses of the name had been refused, shows no series in Gather()", "case": desc})
+			}
+			c.Event("fourth-use-series-checked", 1)
 		}
 	})
 	if cfgBoth {
@@ -616,7 +655,9 @@ func c17Conflicts(c *mon.Ctx, r *mon.Rand) {
 		}
 		quiet(func() { use(first, tags1, rep2, sc2) })
 		quiet(func() { use(second, tags2, rep2, sc2) })
+		quiet(func() { use(second, tags2, rep2, sc2) })
 		quiet(func() { use(second, tags3, rep2, sc2) })
+		quiet(func() { use(first, tags4, rep2, sc2) })
 		if len(errs) != nCfg {
 			c.Violation("configured-callback-not-called", map[string]interface{}{"why": fmt.Sprintf("the callback passed in ConfigurationOptions saw %d registration errors; the same uses on a reporter given the same callback in Options produce %d", nCfg, len(errs)), "case": desc})
 		}
